@@ -203,8 +203,11 @@ func (a Array) Less(v Value) bool {
 	}
 	for i, av := range a.values[:n] {
 		bv := b.values[i]
+		if av == nil && bv == nil {
+			continue
+		}
 		if bv == nil {
-			return av != nil
+			return true
 		}
 		if av == nil {
 			return false
